@@ -274,11 +274,19 @@ impl MarkdownEventsReader {
                 link_type,
                 id: _,
             } => {
+                // inside a table cell the pipe of `[[target\|text]]` has to be escaped; the parser leaves
+                // the backslash at the end of the target
+                let in_table = matches!(self.blocks_stack.last(), Some(DocumentBlock::Table(_)));
+                let piped = matches!(link_type, LinkType::WikiLink { has_pothole: true });
+                let dest_url = match dest_url.strip_suffix('\\') {
+                    Some(stripped) if in_table && piped => stripped.to_string(),
+                    _ => dest_url.to_string(),
+                };
                 self.push_inline(
                     DocumentInline::Link(Link {
                         inlines: vec![],
                         target: Target {
-                            url: dest_url.to_string(),
+                            url: dest_url,
                             title: title.to_string(),
                         },
                         title: title.to_string(),
